@@ -73,6 +73,24 @@ def run(tier, replay=None):
         ops = [h["op"] for h in c["h"]]
         if "rollback" in ops and "next" in ops[:ops.index("rollback")]:
             nt += 1
+    # binding self-test: a sequence whose recorded token index is changed must be rejected by the replayer
+    import copy
+    bad = []
+    for c in cases:
+        idx = [i for i, h in enumerate(c["h"]) if h["op"] == "next" and h["ok"] and h["tok"] >= 1 and c["n"] >= 3 and not (c["err"] and h["tok"] >= c["n"] - 1)]
+        if idx:
+            c2 = copy.deepcopy(c)
+            hh = c2["h"][idx[0]]
+            hh["tok"] = hh["tok"] + 1 if hh["tok"] + 1 < c2["n"] - (1 if c2["err"] else 0) else hh["tok"] - 1
+            if hh["tok"] >= 1:
+                bad.append(c2)
+        if len(bad) >= 10:
+            break
+    if bad:
+        bo = [o for o in vh_json("tlreplay", bad) if not o.get("summary")]
+        if len(bo) != len(bad):
+            raise vlib.Infra("binding self-test: %d corrupted TLexer sequences, %d reported" % (len(bad), len(bo)))
+        ck.part("binding self-test", corrupted=len(bad), rejected=len(bo))
     ck.part("TLexer sequences replayed on lexer.TLexer", sequences=len(cases), with_rollback_after_next=nt)
     if cases:
         ck.sample({"tlexer_sequence": {"src": cases[len(cases) // 2]["src"], "ops": [h["op"] for h in cases[len(cases) // 2]["h"]]}})
